@@ -75,6 +75,10 @@ var SigningKeys = []string{"rsa2048a", "rsa3072", "p256a", "p384a", "p521a"}
 // another certificate (X.509 only).
 var AltKeys = []string{"rsa2048a-alt", "p256a-alt"}
 
+// ExtraKeys are X.509-only signing keys with special properties: rsa2048z has a
+// strong-name public key token that begins with "00".
+var ExtraKeys = []string{"rsa2048z"}
+
 type Env struct {
 	Dir       string
 	Cfg       *config.Config
@@ -136,6 +140,19 @@ func Setup(dir string) (*Env, error) {
 			kc.PgpCertificate = pgpPath
 		}
 		cfg.Keys[k] = kc
+	}
+	for _, k := range ExtraKeys {
+		keyPath := filepath.Join(dir, k+".key")
+		if err := os.WriteFile(keyPath, keys.KeyPEM(k), 0o600); err != nil {
+			return nil, err
+		}
+		leaf := e.Inter.Issue(keys.Key(k).Public(), keys.LeafOpts{CN: "verif signer " + k})
+		e.Leaf[k] = leaf
+		crtPath := filepath.Join(dir, k+".crt")
+		if err := os.WriteFile(crtPath, keys.CertPEM(leaf, e.Inter.Cert, e.Root.Cert), 0o644); err != nil {
+			return nil, err
+		}
+		cfg.Keys[k] = &config.KeyConfig{Token: "file", KeyFile: keyPath, X509Certificate: crtPath, Roles: []string{"signer"}}
 	}
 	// a second key entry over the same private key file with another certificate (same
 	// public key, another subject): which certificate a signature carries must follow
